@@ -363,8 +363,14 @@ def rule_ratio_sign_is_the_sign_of_the_actual_reduction(eng, rep, rule="C04-5b.a
             # cond nodes that test the sign of the denominator
             tests = []
             for cn in cfg.nodes_of_kind("cond"):
+                tnode = cfg.ast_of(cn)
+                if isinstance(tnode, ast.Name):
+                    # `model_increase = den < 0; if model_increase:` is the same test (the denominator must not change between the two, checked below)
+                    dd = [cfg.ast_of(x) for x in cfg.defs_reaching(tnode, tnode.id)]
+                    if len(dd) == 1 and isinstance(dd[0], ast.Assign) and isinstance(dd[0].value, ast.Compare):
+                        tnode = dd[0].value
                 for outcome in (True, False):
-                    a = atom_of(cfg.ast_of(cn), outcome)
+                    a = atom_of(tnode, outcome)
                     # denominator negative:  den < 0  (lt(den, 0))
                     if a.op == "lt" and ekey(a.lhs) == den.id and const_value(a.rhs) == 0:
                         tests.append((cn, outcome))
@@ -495,7 +501,13 @@ def rule_furthest_point_loops_stop_before_the_incumbent(eng, rep, rule="C04-7.lo
                     uses = [x for st in loop.body for x in ast.walk(st) if isinstance(x, ast.Subscript) and ekey(x.value) == lname and ekey(x.slice) == loop.target.id]
                     if not uses:
                         continue
-                    limits = parts(loop.iter.args[0])
+                    lim = loop.iter.args[0]
+                    if isinstance(lim, ast.Name) and lim.id not in fi.all_params:
+                        # the limit hoisted into a local: `num_moves = min(num_pts_to_move, len(L) - 1)`
+                        dd = [cfg.ast_of(x) for x in cfg.defs_reaching(loop.iter, lim.id)]
+                        if len(dd) == 1 and isinstance(dd[0], ast.Assign) and len(dd[0].targets) == 1 and isinstance(dd[0].targets[0], ast.Name):
+                            lim = dd[0].value
+                    limits = parts(lim)
                 elif ekey(loop.iter) == lname:
                     limits = []
                 elif isinstance(loop.iter, ast.Subscript) and ekey(loop.iter.value) == lname and isinstance(loop.iter.slice, ast.Slice):
